@@ -244,16 +244,6 @@ mapping `par` (entries `r`) into the left-hand mapping with entries `l` — at t
 (`mergeVal_map_eq_mergeDicts`).  A Python `dict` has no duplicate keys; the model's entry lists can,
 so the theorems that speak about right-only keys carry `(keys r).Nodup` (shown necessary below). -/
 
-/-- A mapping unpacks only to itself. -/
-theorem mergeDicts_shape (env : Env) (la : Option Str) (l : List (Key × Node)) (par : Node)
-    (r : List (Key × Node)) (m : Node) (h : mergeDicts env (.map la l) par r = .ok m) :
-    ∃ st, dictLoop env par r ⟨l, [], 0⟩ = .ok st ∧ m = .map la (st.entries ++ st.buffer) := by
-  unfold mergeDicts dictWrap at h
-  simp only at h
-  cases hl : dictLoop env par r ⟨l, [], 0⟩ with
-  | error e => rw [hl] at h; cases h
-  | ok st => rw [hl] at h; cases h; exact ⟨st, rfl, rfl⟩
-
 /-- **lhs_order_kept** (left-hand half of `OrderOK`, no hypothesis on `r`): the sub-list of the
 merged mapping's keys that are keys of `l` *is* `l`'s key list — left-hand keys keep their relative
 order (and multiplicity) under every configuration. -/
@@ -412,6 +402,94 @@ theorem root_hash_merge (cfg : Config) (la ra : Option Str) (l r : List (Key × 
       | error e => simp [rootTagSync]
       | ok m => simp [rootTagSync, tagOf]
 
+/-! ## Array-of-Hashes DEEP merges by identity key -/
+
+/-- **merge_content_eq_spec** (Array-of-Hashes, DEEP): when the first right-hand element is a Hash
+and the applicable AoH policy is DEEP, `_merge_lists` of the right-hand list into a left-hand list
+succeeds with `m` **iff** `m` is the left-hand list after `Spec.AohDeep`: the right-hand records are
+taken in order, each must carry the identity key (`aoh_merge_key` of the first record), and each is
+appended when no element of the list as it then stands has the same identity, else deep-merged
+(`_merge_dicts`) in place into the first element that has.  Both directions: the relation is sound
+and complete for the model. -/
+theorem aoh_deep_eq_spec (env : Env) (la ra : Option Str) (litems : List Node) (fa : Option Str)
+    (fes : List (Key × Node)) (rrest : List Node) (c : Coords) (m : Node)
+    (hmode : aohMode env c = .ok .deep) :
+    mergeLists env (.seq la litems) ra (.map fa fes :: rrest) c = .ok m ↔
+      ∃ out, m = .seq la out ∧
+        AohDeep env (aohMergeKey env ⟨.map fa fes, some (.seq ra (.map fa fes :: rrest)), some (.idx 0)⟩ fes)
+          litems (.map fa fes :: rrest) out := by
+  simp only [mergeLists, hmode]
+  constructor
+  · intro h
+    cases h1 : aohDeepStep env _ litems (.map fa fes) with
+    | error e => rw [h1] at h; cases h
+    | ok l1 =>
+      rw [h1] at h
+      simp only at h
+      cases h2 : aohDeepLoop env _ rrest l1 with
+      | error e => rw [h2] at h; cases h
+      | ok l2 =>
+        rw [h2] at h; cases h
+        exact ⟨l2, rfl, AohDeep.cons _ l1 _ fa fes rrest ((aohDeepStep_iff ..).mp h1)
+          ((aohDeepLoop_iff ..).mp h2)⟩
+  · rintro ⟨out, rfl, h⟩
+    cases h with
+    | cons _ l1 _ _ _ _ hstep hrest =>
+      rw [(aohDeepStep_iff ..).mpr hstep]
+      simp only
+      rw [(aohDeepLoop_iff ..).mpr hrest]
+
+/-- What one `Spec.AohStep` does to the record it touches (the per-key characterisation of
+`merge_content_eq_spec`, by identity key): a right-hand record `{es}` (no duplicate keys) with
+identity value `idv` is either **appended** — no left-hand element has that identity — or the first
+left-hand element with that identity is a Hash `{les}` and is replaced in place by a Hash `{es'}`
+with: key set the union, keys not named by the record keeping their value, keys of the record
+holding `Spec.Merged` (right-only: the record's value; shared: LEFT / RIGHT / recursive merge),
+and `OrderOK les es es'`.  All other elements are untouched. -/
+theorem aoh_deep_step_content (env : Env) (idKey : Key) (litems : List Node) (a : Option Str)
+    (es : List (Key × Node)) (out : List Node) (h : AohStep env idKey litems a es out)
+    (hes : (keys es).Nodup) :
+    ∃ idv, lookupKey idKey es = some idv ∧
+      (((∀ x ∈ litems, recordMatches env idKey (typedNode env idv) x = false) ∧
+          out = litems ++ [.map a es]) ∨
+       ∃ pre la' les post es', litems = pre ++ .map la' les :: post ∧
+          (∀ x ∈ pre, recordMatches env idKey (typedNode env idv) x = false) ∧
+          recordMatches env idKey (typedNode env idv) (.map la' les) = true ∧
+          out = pre ++ .map la' es' :: post ∧
+          (∀ k, k ∈ keys es' ↔ k ∈ keys les ∨ k ∈ keys es) ∧
+          (∀ k, k ∉ keys es → lookupKey k es' = lookupKey k les) ∧
+          (∀ k rv, lookupKey k es = some rv →
+            Merged env (.map a es) k (lookupKey k les) rv (lookupKey k es')) ∧
+          OrderOK les es es') := by
+  cases h with
+  | append idv hid hall => exact ⟨idv, hid, .inl ⟨hall, rfl⟩⟩
+  | merge idv pre lh post m hid e hpre hlh hm =>
+    refine ⟨idv, hid, .inr ?_⟩
+    cases lh with
+    | map la' les =>
+      obtain ⟨es1, hm1, hkeys⟩ := hash_deep_keys env la' les _ es m hm
+      obtain ⟨es2, hm2, hkeep, hmerged⟩ := merge_content_eq_spec env la' les _ es m hm hes
+      obtain ⟨es3, hm3, hord⟩ := merge_order_ok env la' les _ es m hm hes
+      subst hm1
+      cases hm2; cases hm3
+      exact ⟨pre, la', les, post, es1, e, hpre, hlh, rfl, hkeys, hkeep, hmerged, hord⟩
+    | scalar _ _ => simp [recordMatches] at hlh
+    | seq _ _ => simp [recordMatches] at hlh
+    | set _ _ => simp [recordMatches] at hlh
+
+/-- **lhs_only_content_preserved** (Array-of-Hashes, DEEP): a left-hand element whose identity no
+right-hand record carries keeps its value **and its position**; the left-hand list is a positional
+prefix of the result (`litems.length ≤ out.length`), and at most one element per right-hand record
+is added. -/
+theorem aoh_deep_lhs_only_preserved (env : Env) (idKey : Key) (litems ritems out : List Node)
+    (h : AohDeep env idKey litems ritems out) :
+    (∀ (i : Nat) (x : Node), litems[i]? = some x →
+        (∀ a es idv, Node.map a es ∈ ritems → lookupKey idKey es = some idv →
+          recordMatches env idKey (typedNode env idv) x = false) →
+        out[i]? = some x) ∧
+    litems.length ≤ out.length ∧ out.length ≤ litems.length + ritems.length :=
+  ⟨fun i x hx hno => AohDeep_keeps h i x hx hno, AohDeep_length h⟩
+
 /-! ## Witnesses: the hypotheses are met by concrete values, and the interleaving of the design note -/
 
 def i (n : Int) : Node := .scalar none (.int n)
@@ -440,5 +518,37 @@ example : mergeWith { aohCli := some .left } (.map none [(sk "a", i 1)]) (.map n
 example : mergeWith { hashCli := some .deep, rules := [([.key (sk "a")], .left)] }
     (.map none [(sk "a", .map none [(sk "x", i 1)])]) (.map none [(sk "a", .map none [(sk "y", i 2)])])
     = .ok (.map none [(sk "a", .map none [(sk "x", i 1)])]) := by decide +kernel
+
+/-- The hypotheses of `merge_order_ok` / `merge_content_eq_spec` are met by a merge that exercises
+every constructor of `Spec.Merged` but LEFT: `{a: {x: 1}, c: 3} ⊕ {d: 4, a: {y: 2}, c: 5}` is
+`{a: {x: 1, y: 2}, d: 4, c: 5}` (recursive merge under `a`, right-only `d` placed at `a`'s
+right-hand index, right-hand scalar under `c`), and the right-hand keys have no duplicates. -/
+example :
+    let r := [(sk "d", i 4), (sk "a", .map none [(sk "y", i 2)]), (sk "c", i 5)]
+    mergeDicts (prepare {} (.map none r)) (.map none [(sk "a", .map none [(sk "x", i 1)]), (sk "c", i 3)])
+        (.map none r) r
+      = .ok (.map none [(sk "a", .map none [(sk "x", i 1), (sk "y", i 2)]), (sk "d", i 4), (sk "c", i 5)]) ∧
+    (keys r).Nodup := by
+  decide +kernel
+
+/-- hashes=left under a shared key: `Spec.Merged.keepLeft`. -/
+example : mergeWith { rules := [([.key (sk "a")], .left)] }
+    (.map none [(sk "a", .map none [(sk "x", i 1)])]) (.map none [(sk "a", .map none [(sk "y", i 2)]), (sk "b", i 1)])
+    = .ok (.map none [(sk "a", .map none [(sk "x", i 1)]), (sk "b", i 1)]) := by decide +kernel
+
+/-- aoh=deep: `[{id: 1, v: 1}, {id: 2, v: 2}] ⊕ [{id: 2, w: 9}, {id: 3}]` — the record with identity 2
+is merged in place (`Spec.AohStep.merge`), identity 3 is appended (`Spec.AohStep.append`), identity 1
+(named by no right-hand record) keeps its value and position. -/
+example : mergeWith { aohCli := some .deep }
+    (.seq none [.map none [(sk "id", i 1), (sk "v", i 1)], .map none [(sk "id", i 2), (sk "v", i 2)]])
+    (.seq none [.map none [(sk "id", i 2), (sk "w", i 9)], .map none [(sk "id", i 3)]])
+    = .ok (.seq none [.map none [(sk "id", i 1), (sk "v", i 1)],
+        .map none [(sk "id", i 2), (sk "v", i 2), (sk "w", i 9)], .map none [(sk "id", i 3)]]) := by
+  decide +kernel
+
+/-- aoh=deep: a right-hand record without the identity key is a merge error. -/
+example : mergeWith { aohCli := some .deep } (.seq none [.map none [(sk "id", i 1)]])
+    (.seq none [.map none [(sk "id", i 1)], .map none [(sk "x", i 3)]]) = .error .merge := by
+  decide +kernel
 
 end Ypv.C05
